@@ -249,6 +249,9 @@ def run_reuse(first: List[dict], second: List[dict], mode: str, c: Counter):
     judge_text(buf.getvalue(), second, [build(sp) for sp in second], c, 'second-document-of-one-writer', rp)
 
 
+LEAVING = {'RuntimeError': RuntimeError, 'KeyboardInterrupt': KeyboardInterrupt, 'SystemExit': SystemExit, 'GeneratorExit': GeneratorExit}
+
+
 def run_doc(specs: List[dict], mode: str, c: Counter, tag: str):
     """One document: the operation sequence on the real writer, then every oracle."""
     rp = {'kind': 'doc', 'specs': specs, 'mode': mode}
@@ -271,7 +274,17 @@ def run_doc(specs: List[dict], mode: str, c: Counter, tag: str):
             else:
                 raise _Accepted()
     try:
-        if mode == 'with':
+        if mode.startswith('left:'):
+            # the `with` block is left by an exception after the writes (a crash, the operator's Ctrl-C, sys.exit, a generator torn down):
+            # what was written is still "a sequence of board results written by the log writer"
+            exc = LEAVING[mode[5:]]
+            try:
+                with JsonLogWriter(buf) as w:
+                    do_writes(w)
+                    raise exc('the block is left')
+            except exc:
+                c.inc('with_blocks_left_by_an_exception')
+        elif mode == 'with':
             with JsonLogWriter(buf) as w:
                 do_writes(w)
         else:
@@ -436,6 +449,11 @@ def run(tier, seed, workers):
                 seq = [pl[(pos + i) % len(pl)] for i in range(n)]
                 docs.append((m, seq[:pos] + [rej] + seq[pos:]))
     docs.append(('manual', [rej, rej, pl[0], rej]))
+    # the with-block left by an exception after 0..3 records (ordinary and non-Exception ones), also after a refused write
+    for k, exc in enumerate(LEAVING):
+        for n in (0, 1, 2, 3):
+            docs.append((f'left:{exc}', [pl[(k + i) % len(pl)] for i in range(n)]))
+        docs.append((f'left:{exc}', [pl[k % len(pl)], rej]))
     # records that share a board id are still separate records (a second round, a replay at another table)
     same = [dict(pl[0], id='1'), dict(pl[2], id='2'), dict(pl[3], id='1', dealer='S', vul='Both', dda=True), dict(pl[1], id='1'), dict(pl[0], id='2', deal=seed + 77)]
     docs.append(('with', same))
